@@ -11,7 +11,9 @@ namespace JS
 /-- `P` is closed under the generator combinators -/
 structure Closed (env : Env) (P : Gen → Prop) : Prop where
   emit : ∀ es, P (emit es)
-  stop : ∀ s, P (stopG s)
+  /-- every stage that just stops — except "the consumer stopped pulling", which no stage of the
+      model produces on its own (`.budget` only arises in `emit`) -/
+  stop : ∀ s, s ≠ .budget → P (stopG s)
   andThen : ∀ {g h : Gen}, P g → P h → P (andThen g h)
   mapErrs : ∀ (f : Err → Err) {g : Gen}, P g → P (mapErrs f g)
   inner : ∀ {g : Gen} (b' : Option Nat) (k : List Err → Gen), P g → (∀ es, P (k es)) → P (inner g b' k)
@@ -24,9 +26,11 @@ include H
 
 theorem P_emit (es : List Err) : P (JS.emit es) := H.emit es
 theorem P_nothing : P nothing := H.emit []
-theorem P_stopG (s : Stop) : P (stopG s) := H.stop s
-theorem P_raiseG (e : Exc) : P (raiseG e) := H.stop _
-theorem P_crashG (c : String) : P (crashG c) := H.stop _
+theorem P_stopG {s : Stop} (hs : s ≠ .budget) : P (stopG s) := H.stop s hs
+theorem P_stopG_fuel : P (stopG .fuel) := H.stop _ nofun
+theorem P_stopG_miss (q : Query) : P (stopG (.miss q)) := H.stop _ nofun
+theorem P_raiseG (e : Exc) : P (raiseG e) := H.stop _ nofun
+theorem P_crashG (c : String) : P (crashG c) := H.stop _ nofun
 theorem P_mapErrs (f : Err → Err) {g : Gen} (hg : P g) : P (JS.mapErrs f g) := H.mapErrs f hg
 theorem P_inner {g : Gen} (b' : Option Nat) (k : List Err → Gen) (hg : P g) (hk : ∀ es, P (k es)) :
     P (JS.inner g b' k) := H.inner b' k hg hk
@@ -52,8 +56,8 @@ theorem P_withRes {α : Type} (r : Res α) (k : α → Gen) (hk : ∀ a, P (k a)
   unfold withRes
   cases r with
   | ok a => exact hk a
-  | raise e => exact H.stop _
-  | miss q => exact H.stop _
+  | raise e => exact H.stop _ nofun
+  | miss q => exact H.stop _ nofun
 
 theorem P_gate (cfg : Cfg) (inst : Json) (name : String) {k : Gen} (hk : P k) : P (gate cfg inst name k) := by
   unfold gate
@@ -76,7 +80,8 @@ macro_rules | `(tactic| inv_step $H) => `(tactic| first
   | with_reducible exact P_nothing $H
   | with_reducible exact P_emit $H _
   | with_reducible exact P_crashG $H _
-  | with_reducible exact P_stopG $H _
+  | with_reducible exact P_stopG_fuel $H
+  | with_reducible exact P_stopG_miss $H _
   | with_reducible exact P_raiseG $H _
   | with_reducible assumption
   | with_reducible apply P_descendG $H
@@ -318,7 +323,7 @@ theorem P_evalStep (impl : FmtImpl) (cfg : Cfg) {rec : Rec} (hrec : (∀ i s, P 
 theorem P_eval (impl : FmtImpl) (cfg : Cfg) (fuel : Nat) :
     ∀ i s, P (eval env impl cfg fuel i s) := by
   induction fuel with
-  | zero => intro i s; exact P_stopG H _
+  | zero => intro i s; exact P_stopG_fuel H
   | succ n ih => exact P_evalStep H impl cfg ih
 
 end JS
